@@ -360,6 +360,8 @@ pub fn pre_frame(request: bool) -> impl Strategy<Value = PreFrame> {
         1 => any::<[u8; 8]>().prop_map(PreFrame::Ping),
         1 => (10u8..=255, 0u32..4, proptest::collection::vec(any::<u8>(), 0..20)).prop_map(|(t, s, d)| PreFrame::Unknown(t, s, d)),
         1 => proptest::collection::vec(any::<u8>(), 0..30).prop_map(PreFrame::OtherData),
+        // frames at and just below the 16 KiB frame-size limit (the limit is on the payload: the 9 header octets do not count)
+        1 => (prop_oneof![Just(16384usize), Just(16383usize), Just(16376usize), Just(16375usize), Just(16380usize), 16000usize..16385], any::<bool>()).prop_map(|(n, data)| if data { PreFrame::OtherData(vec![0x5a; n]) } else { PreFrame::Unknown(0x42, 0, vec![0xa5; n]) }),
     ]
 }
 
